@@ -22,7 +22,7 @@ def detJudge (ws : List String) : Bool :=
   -- det opt1 <parser hashes> <types hashes> opt0 <parser hashes> <types hashes>
   match ws with
   | ["opt1", p1, t1, "opt0", p0, t0] =>
-    [p1, t1, p0, t0].all fun l => allEqual (l.splitOn ",") && (l.splitOn ",").length ≥ 4
+    [p1, t1, p0, t0].all fun l => allEqual (l.splitOn ",") && (l.splitOn ",").length ≥ 2
   | _ => false
 
 def onReady (s : PState) : PState × String :=
